@@ -167,6 +167,7 @@ func init() {
 			ruleSGNames(c)
 			ruleBTRec(c)
 			ruleLKOwn(c)
+			ruleCPFresh(c, findReadFile(c.P))
 			ruleSGReg(c)
 			ruleENCSame(c)
 			ruleODClear(c, findReadFile(c.P))
